@@ -174,9 +174,11 @@ package security
 // authenticator must not write it (the ephemeral ECDH key lives in a private copy).
 
 //@ func NewAuthenticator (config, s) (result)
-//@   props C17 C10
+//@   props C17 C10 C03
 //@   requires config != nil
-//@   assigns
+//@   assigns ecdhGenCount, ecdhGenFailed
+//@   ensures key_always_attempted: [C03 C10] ecdhGenCount == old(ecdhGenCount) + 1
+//@   ensures key_advertised: [C03 C10] !ecdhGenFailed ==> result.ecdhPrivKey != nil && len(result.config.ECDHPublicKey) > 0
 //@   ensures shared_config_untouched: config.ECDHPublicKey == old(config.ECDHPublicKey)
 //@   ensures fresh(result) && result.stream == s && !result.sessionResumed
 //@   ensures private_config: result.config != nil && (result.ecdhPrivKey != nil ==> result.config != config && fresh(result.config))
